@@ -920,6 +920,23 @@ func runC07(c *Ctx) {
 	}
 	c.Sim()
 
+	if !r.Failed() && g.Chance(4) {
+		// an encoder configuration that emits no header at all (every key is
+		// optional): the derivation context is then the first thing in the line
+		var buf bytes.Buffer
+		hl := zap.New(zapcore.NewCore(zapcore.NewJSONEncoder(zapcore.EncoderConfig{LineEnding: "\n"}), zapcore.AddSync(&buf), zapcore.DebugLevel))
+		hl.Info("no header", zap.Int("c", 1))
+		hl.With(zap.String("a", "x")).Info("no header", zap.Int("c", 2))
+		hl.Named("n").WithOptions(zap.Fields(zap.Int("f", 3))).Sugar().With("s", 4).Infow("no header", "c", 5)
+		hl.With(zap.Namespace("ns"), zap.Int("in", 6)).Info("no header")
+		want := "{\"c\":1}\n{\"a\":\"x\",\"c\":2}\n{\"f\":3,\"s\":4,\"c\":5}\n{\"ns\":{\"in\":6}}\n"
+		if buf.String() != want {
+			c.Fail("C07: an entry does not carry exactly the fields of its own derivation path followed by its call-site fields", "JSON encoder without any header key: got %q, expected %q", buf.String(), want)
+			return
+		}
+		c.R.Probe("encoder configuration without any header key")
+	}
+
 	// ---- judge every log and probe ----
 	all := append([]*c7op{}, probes...)
 	nLogs := 0
